@@ -56,6 +56,19 @@ def gen_pair(rng):
     two = rng.random() < 0.4
     gen = E.SpecGen(rng, apps=('app1', 'app2') if two else ('app1',))
     old = gen.gen_spec()
+    if rng.random() < 0.3:
+        # legal but unusual: single-field entries in unique_together /
+        # index_together
+        for a, mods in old.items():
+            for m, ms in mods.items():
+                cands = [fn for fn, fd in ms['fields']
+                         if fd['kind'] != 'ManyToMany']
+                if cands and rng.random() < 0.6:
+                    prop = rng.choice(['unique_together', 'index_together'])
+                    cur = ms.setdefault('meta', {}).setdefault(prop, [])
+                    ent = [rng.choice(cands)]
+                    if ent not in cur:
+                        cur.append(ent)
     new = old
     kinds = []
     n = rng.choice([1, 1, 2, 3, 4, 6])
